@@ -5,15 +5,15 @@ package harness
 import (
 	"bytes"
 	"fmt"
+	"path/filepath"
 	"reflect"
 	"runtime"
-	"unsafe"
-	"path/filepath"
 	"strings"
 	"sync"
 	"testing"
 	"testing/synctest"
 	"time"
+	"unsafe"
 
 	"github.com/DataDog/datadog-go/v5/statsd"
 	gometrics "github.com/rcrowley/go-metrics"
